@@ -256,7 +256,7 @@ fn c18_q_hostile_handshake_req() {
 #[cfg_attr(kani, kani::stub(RingBuf::free, model_free))]
 #[cfg_attr(kani, kani::stub(embassy_time::Instant::now, crate::verif_support::stub_instant_now))]
 #[cfg_attr(not(kani), test)]
-fn c18_x_transfer_two_segments() {
+fn c18_t_transfer_two_segments() {
     let mut a = Session::new();
     let mut b = Session::new();
     let ws = any_u8();
@@ -338,4 +338,65 @@ fn c18_q_first_segment_accepted_by_peer() {
     let accepted = b.process_rx(None, PEER, &seg[..n]).is_ok();
     vassert!(accepted, "ROLE:btp-well-formed-segment-accepted");
     vassert!(b.message_available() == (off == ml), "ROLE:btp-message-available-iff-complete");
+}
+
+/// The whole handshake between two real sessions (initiator = GATT central, responder =
+/// peripheral) for the ATT MTUs 23 (the minimum), 100 and 247 (the maximum) or an unknown one:
+/// both ends come out with the same segment size and window, and the first data segment in EACH
+/// direction is accepted by the other end (sequence numbering of the implicit handshake
+/// response included).
+#[cfg_attr(kani, kani::proof)]
+#[cfg_attr(kani, kani::unwind(30))]
+#[cfg_attr(kani, kani::stub(RingBuf::push, model_push))]
+#[cfg_attr(kani, kani::stub(RingBuf::pop, model_pop))]
+#[cfg_attr(kani, kani::stub(RingBuf::pop_byte, model_pop_byte))]
+#[cfg_attr(kani, kani::stub(RingBuf::free, model_free))]
+#[cfg_attr(kani, kani::stub(embassy_time::Instant::now, crate::verif_support::stub_instant_now))]
+#[cfg_attr(not(kani), test)]
+fn c18_q_handshake_both_ends_agree() {
+    let mut a = Session::new();
+    a.set_initiator(true);
+    let mut b = Session::new();
+    let gatt = match any_u8() & 3 {
+        0 => None,
+        1 => Some(23u16),
+        2 => Some(100u16),
+        _ => Some(247u16),
+    };
+    #[cfg(kani)]
+    model_reset(0);
+    let addr_a = BtAddr([6, 5, 4, 3, 2, 1]);
+    let mut seg = [0u8; 24];
+    // A -> B: handshake request
+    let n = vok!(a.prep_tx_handshake(gatt, &mut seg), "handshake-request-is-produced");
+    vassert!(n > 0, "ROLE:btp-initiator-sends-handshake-request");
+    let r = b.process_rx(gatt, addr_a, &seg[..n]);
+    vassert!(r.is_ok(), "ROLE:btp-own-handshake-request-accepted");
+    // B -> A: handshake response
+    let n = vok!(b.prep_tx_handshake(gatt, &mut seg), "handshake-response-is-produced");
+    vassert!(n > 0, "ROLE:btp-responder-sends-handshake-response");
+    let r = a.process_rx(gatt, PEER, &seg[..n]);
+    vassert!(r.is_ok(), "ROLE:btp-own-handshake-response-accepted");
+    vassert!(a.mtu == b.mtu && a.window_size == b.window_size && a.version == b.version, "ROLE:btp-both-ends-agree-on-segment-size-and-window");
+    vassert!(a.mtu >= 20 && a.mtu <= 244 && a.window_size >= 1, "ROLE:btp-negotiated-parameters-usable");
+    let want_mtu = match gatt {
+        None => 20,
+        Some(g) => g - 3,
+    };
+    vassert!(a.mtu == want_mtu, "ROLE:btp-segment-size-is-att-mtu-minus-3");
+    // first data segment in each direction (a one-byte message)
+    let msg = [any_u8()];
+    let mut off = 0usize;
+    let mut big = [0u8; 8];
+    let n = vok!(a.prep_tx_data(&msg, &mut off, &mut big), "data");
+    vassert!(n > 0, "ROLE:btp-initiator-can-send-after-handshake");
+    let ok_ab = b.process_rx(gatt, addr_a, &big[..n]).is_ok();
+    vassert!(ok_ab, "ROLE:btp-first-data-segment-of-initiator-accepted");
+    let mut off = 0usize;
+    let n = vok!(b.prep_tx_data(&msg, &mut off, &mut big), "data");
+    vassert!(n > 0, "ROLE:btp-responder-can-send-after-handshake");
+    let ok_ba = a.process_rx(gatt, PEER, &big[..n]).is_ok();
+    vassert!(ok_ba, "ROLE:btp-first-data-segment-of-responder-accepted");
+    vcover!(gatt.is_none());
+    vcover!(gatt == Some(247));
 }
